@@ -20,6 +20,7 @@ import (
 
 	"github.com/AdguardTeam/AdGuardHome/verifsim/homesim"
 	"github.com/AdguardTeam/AdGuardHome/verifsim/kernel"
+	"github.com/AdguardTeam/AdGuardHome/verifsim/sched"
 	"pgregory.net/rapid"
 )
 
@@ -43,6 +44,13 @@ type Op struct {
 	Hdr int `json:"hdr,omitempty"`
 	// Path selects the protected resource of "req".
 	Path int `json:"path,omitempty"`
+	// "par": a request and a logout with the same cookie (and, with N > 0, a
+	// second request) run as concurrent tasks under the seeded cooperative
+	// scheduler: Seed picks the interleaving at the lock boundaries, Pct is
+	// the preemption probability.
+	N    int    `json:"n,omitempty"`
+	Seed uint64 `json:"seed,omitempty"`
+	Pct  int    `json:"pct,omitempty"`
 }
 
 // Scenario is one case.
@@ -71,7 +79,7 @@ var (
 	blocks    = []int64{1 * secMs, 2 * secMs, 30 * secMs, 59 * secMs, 60 * secMs, 61 * secMs, 15 * minMs, hourMs}
 	ttls      = []int64{60, 61, 120, 3600, 86399, 86400, 86401, 2 * 86400, 30 * 86400}
 	// kindTable interleaves the operation kinds (rapid favours small indices).
-	kindTable = []string{"login", "adv", "req", "login", "adv", "login", "req", "logout", "adv", "login", "basic", "restart", "login", "req", "adv", "crash", "login", "req", "adv", "login"}
+	kindTable = []string{"login", "adv", "req", "login", "adv", "login", "req", "logout", "adv", "par", "login", "basic", "restart", "login", "req", "adv", "crash", "login", "req", "adv", "login", "par"}
 	unknowns  = []string{"000102030405060708090a0b0c0d0e0f", "not-hex-at-all", "00"}
 )
 
@@ -153,6 +161,29 @@ func Gen(t *rapid.T, tier string) any {
 				op.Tok = rapid.IntRange(0, issued-1).Draw(t, "tok")
 				push(now + sc.TTLs*secMs)
 			}
+		case "par":
+			if issued == 0 {
+				op = Op{K: "req", Tok: -1}
+				break
+			}
+			op = Op{K: "par", Tok: rapid.IntRange(0, issued-1).Draw(t, "tok"), Path: rapid.IntRange(0, len(reqPaths)-1).Draw(t, "path"),
+				N: rapid.IntRange(0, 1).Draw(t, "par_n"), Seed: rapid.Uint64().Draw(t, "par_seed"), Pct: rapid.SampledFrom([]int{20, 50, 80}).Draw(t, "par_pct")}
+			// Often in the setting in which the two operations have most to
+			// disagree about: the first use of the session on a later day (its
+			// stored expiry is rewritten), and a restart plus a use of the
+			// cookie afterwards (what is on disk decides).
+			if rapid.Bool().Draw(t, "par_after_day") {
+				ms := (now/dayMs+1)*dayMs - now + int64(rapid.IntRange(0, 3600).Draw(t, "par_day_s"))*secMs
+				if ms < sc.TTLs*secMs {
+					sc.Ops = append(sc.Ops, Op{K: "adv", Ms: ms})
+					now += ms
+				}
+			}
+			if rapid.Bool().Draw(t, "par_then_restart") {
+				sc.Ops = append(sc.Ops, op)
+				sc.Ops = append(sc.Ops, Op{K: rapid.SampledFrom([]string{"restart", "crash"}).Draw(t, "par_restart_kind")})
+				op = Op{K: "req", Tok: op.Tok, Path: op.Path}
+			}
 		case "logout":
 			op = Op{K: "logout"}
 			if issued == 0 {
@@ -229,6 +260,8 @@ type sim struct {
 	n      *homesim.Node
 	addr   [4]addrModel
 	tokens []*tokModel
+	// abandon: a deadlock was found; the parked tasks hold locks of the node.
+	abandon bool
 }
 
 func (s *sim) now() int64 { return time.Since(kernel.Epoch).Milliseconds() }
@@ -534,6 +567,83 @@ func (s *sim) logout(op *Op) error {
 	return nil
 }
 
+// par runs a request and a logout with the same cookie as concurrent tasks.
+// Whatever the interleaving, the logout of a valid session succeeds and the
+// session is dead afterwards (the later operations and restarts of the history
+// check that); the request may see the session or not.
+func (s *sim) par(op *Op) error {
+	t := s.now()
+	val, m, name := s.cookieFor(op.Tok)
+	path := reqPaths[op.Path%len(reqPaths)]
+	exp := s.expect(m, t)
+	type out struct {
+		resp *homesim.Resp
+		err  error
+	}
+	outs := make([]out, 2+op.N)
+	names := []string{"logout", "req"}
+	fns := []func(){
+		func() {
+			outs[0].resp, outs[0].err = s.do(&homesim.Req{Method: http.MethodGet, Target: "/control/logout", RemoteAddr: remoteAddr(0, 3001), Cookie: val})
+		},
+		func() {
+			outs[1].resp, outs[1].err = s.do(&homesim.Req{Method: http.MethodGet, Target: path, RemoteAddr: remoteAddr(0, 3000), Cookie: val})
+		},
+	}
+	if op.N > 0 {
+		names = append(names, "req")
+		fns = append(fns, func() {
+			outs[2].resp, outs[2].err = s.do(&homesim.Req{Method: http.MethodGet, Target: path, RemoteAddr: remoteAddr(0, 3002), Cookie: val})
+		})
+	}
+	res := sched.Run(op.Seed, op.Pct, names, fns)
+	s.c.Fault("concurrent_request_and_logout")
+	s.c.Probes["sched_steps"] += res.Steps
+	s.c.Probes["sched_switches"] += res.Switches
+	if res.Deadlock != "" {
+		s.abandon = true
+		return kernel.Violationf("deadlock: "+res.Deadlock, "t=%d concurrent logout and request with cookie %s, schedule seed %d: every task waits for a lock:\n%s", t, name, op.Seed, res.Detail)
+	}
+	for _, o := range outs {
+		if o.err != nil {
+			return o.err
+		}
+	}
+	mem, disk := s.n.H.Sessions()
+	s.c.Eventf("t=%d par cookie=%s model=%s logout -> %d req -> %d steps=%d sessions=%d/%d", t, name, exp, outs[0].resp.Code, outs[1].resp.Code, res.Steps, mem, disk)
+	// The requests: never authenticated with a dead cookie; with a live one
+	// either outcome, since the logout may have come first.
+	reqExp := exp
+	if reqExp == "valid" {
+		reqExp = "either"
+	}
+	for _, o := range outs[1:] {
+		ok, err := authenticated(path, o.resp)
+		if err != nil {
+			return err
+		}
+		if err = s.judge(m, name, t, reqExp, ok, "GET "+path+" concurrent with a logout"); err != nil {
+			return err
+		}
+	}
+	var ok bool
+	switch lo := outs[0].resp; {
+	case lo.Code == http.StatusFound && strings.HasSuffix(lo.Location, "login.html"):
+		ok = true
+	case lo.Code == http.StatusForbidden:
+	default:
+		return kernel.Violationf("logout-status", "t=%d logout answered %d location=%q", t, lo.Code, lo.Location)
+	}
+	if err := s.judge(m, name, t, exp, ok, "GET /control/logout concurrent with a request"); err != nil {
+		return err
+	}
+	if ok && m != nil {
+		m.loggedOut = true
+		s.c.Probe("logout_done")
+	}
+	return nil
+}
+
 func (s *sim) basic(op *Op) error {
 	t := s.now()
 	user, pass := creds(op.PW)
@@ -602,6 +712,7 @@ func Run(t *testing.T, scAny any, c *kernel.Ctx) error {
 	if sc.Attempts < 1 || sc.BlockMs < 1 || sc.TTLs < 1 {
 		return fmt.Errorf("harness: bad scenario knobs")
 	}
+	sched.Init()
 	return kernel.Bubble(t, func() error {
 		if sc.StartMs > 0 {
 			time.Sleep(time.Duration(sc.StartMs) * time.Millisecond)
@@ -615,8 +726,12 @@ func Run(t *testing.T, scAny any, c *kernel.Ctx) error {
 		if err != nil {
 			return err
 		}
-		defer n.Close()
 		s := &sim{sc: sc, c: c, n: n}
+		defer func() {
+			if !s.abandon {
+				n.Close()
+			}
+		}()
 		c.Eventf("node attempts=%d block_ms=%d ttl_s=%d start_ms=%d just_installed=%v", sc.Attempts, sc.BlockMs, sc.TTLs, sc.StartMs, sc.JustInstalled)
 		for i := range sc.Ops {
 			op := &sc.Ops[i]
@@ -627,6 +742,8 @@ func Run(t *testing.T, scAny any, c *kernel.Ctx) error {
 				err = s.request(op)
 			case "logout":
 				err = s.logout(op)
+			case "par":
+				err = s.par(op)
 			case "basic":
 				err = s.basic(op)
 			case "adv":
@@ -683,6 +800,6 @@ var Prop = &kernel.Property{
 		"the failed-attempt table is process memory: what a restart does to a running block is not asserted (counted as probe restart_inside_block)",
 		"a crash is the loss of the process with the page cache intact: the bbolt handle is dropped without Auth.Close (bbolt commits are synchronous, so this equals a clean close at file level)",
 	},
-	FaultKinds: []string{"clean_restart", "process_crash", "clock_jump_hours"},
-	ProbeNames: []string{"login_attempt", "request_with_cookie", "limit_reached", "blocked_login_rejected", "right_password_inside_block", "block_elapsed", "window_elapsed_count_restarts", "success_clears_count", "edge_instant_throttle", "edge_instant_expiry", "login_in_unasserted_state", "retry_after_present", "proxy_header_from_untrusted_client", "token_alive_past_created_plus_ttl", "use_on_a_later_day", "expired_token_refused", "logged_out_token_refused", "unknown_token_refused", "logout_done", "basic_credentials_request", "basic_credentials_inside_block", "restart_inside_block", "restart_with_live_sessions", "midnight_crossed"},
+	FaultKinds: []string{"clean_restart", "process_crash", "clock_jump_hours", "concurrent_request_and_logout"},
+	ProbeNames: []string{"login_attempt", "request_with_cookie", "limit_reached", "blocked_login_rejected", "right_password_inside_block", "block_elapsed", "window_elapsed_count_restarts", "success_clears_count", "edge_instant_throttle", "edge_instant_expiry", "login_in_unasserted_state", "retry_after_present", "proxy_header_from_untrusted_client", "token_alive_past_created_plus_ttl", "use_on_a_later_day", "expired_token_refused", "logged_out_token_refused", "unknown_token_refused", "logout_done", "basic_credentials_request", "basic_credentials_inside_block", "restart_inside_block", "restart_with_live_sessions", "midnight_crossed", "sched_steps", "sched_switches"},
 }
